@@ -1,6 +1,9 @@
 // C12 native harness: the real CScriptNum (script.h), CheckMinimalPush, IsOpSuccess (script.cpp), CastToBool (interpreter.cpp) vs the extracted C text vs references from the script rules.
 #include <script/interpreter.h>
 #include <script/script.h>
+#include <script/script_error.h>
+#include <pubkey.h>
+#include <primitives/transaction.h>
 #include "replay_util.h"
 bool CastToBool(const std::vector<unsigned char>& vch);
 struct xBV { unsigned char* data; size_t size, cap; };
@@ -10,6 +13,31 @@ extern "C" { extern int g_thrown; void xc_CScriptNum_serialize(xBV*, int64_t); i
 static std::string hx(const std::vector<unsigned char>& v) { static const char* H = "0123456789abcdef"; std::string o; for (auto c : v) { o += H[c >> 4]; o += H[c & 15]; } return o.empty() ? "(empty)" : o; }
 static std::vector<unsigned char> ref_ser(int64_t v) { std::vector<unsigned char> r; if (v == 0) return r; bool neg = v < 0; unsigned __int128 a = neg ? (unsigned __int128)(-(__int128)v) : (unsigned __int128)v; while (a) { r.push_back((unsigned char)(a & 0xff)); a >>= 8; } if (r.back() & 0x80) r.push_back(neg ? 0x80 : 0); else if (neg) r.back() |= 0x80; return r; }
 static bool ref_dec(const std::vector<unsigned char>& v, __int128& out) { __int128 m = 0; for (size_t i = 0; i < v.size(); i++) m |= (__int128)(i + 1 == v.size() ? (v[i] & 0x7f) : v[i]) << (8 * i); out = (!v.empty() && (v.back() & 0x80)) ? -m : m; return true; }
+// ExecuteWitnessScript (static in interpreter.cpp) is reached through the real VerifyScript with a P2TR script-path spend of a one-leaf tree.
+static const unsigned char GX[32] = {0x79,0xBE,0x66,0x7E,0xF9,0xDC,0xBB,0xAC,0x55,0xA0,0x62,0x95,0xCE,0x87,0x0B,0x07,0x02,0x9B,0xFC,0xDB,0x2D,0xCE,0x28,0xD9,0x59,0xF2,0x81,0x5B,0x16,0xF8,0x17,0x98};
+static bool ref_opsuccess(int so) { return so == 80 || so == 98 || (so >= 126 && so <= 129) || (so >= 131 && so <= 134) || (so >= 137 && so <= 138) || (so >= 141 && so <= 142) || (so >= 149 && so <= 153) || (so >= 187 && so <= 254); }
+// BIP342 pre-scan by an independent decoder: 0 = no OP_SUCCESSx and everything decodes, 1 = OP_SUCCESSx met first, 2 = undecodable instruction met first
+static int ref_prescan(const std::vector<unsigned char>& sc) { size_t p = 0; while (p < sc.size()) { unsigned op = sc[p++]; size_t len = 0; if (op <= 75) len = op; else if (op == 76) { if (sc.size() - p < 1) return 2; len = sc[p]; p += 1; } else if (op == 77) { if (sc.size() - p < 2) return 2; len = sc[p] | (sc[p + 1] << 8); p += 2; } else if (op == 78) { if (sc.size() - p < 4) return 2; len = sc[p] | (sc[p + 1] << 8) | (sc[p + 2] << 16) | ((size_t)sc[p + 3] << 24); p += 4; }
+    if (op <= 78) { if (sc.size() - p < len) return 2; p += len; continue; } if (ref_opsuccess((int)op)) return 1; } return 0; }
+static void test_tapscript(rv::Rng& r)
+{
+    static const std::vector<std::vector<unsigned char>> FRAG = {{0x50}, {0x62}, {0x7e}, {0xbb}, {0xfe}, {0x51}, {0x51}, {0x61}, {0x75}, {0x00}, {0x01, 0x07}, {0x4c}, {0x4d, 0x01}, {0x4e, 0x01, 0x00, 0x00}, {0x02, 0x01}, {0x4c, 0x02, 0x01, 0x02}, {0x69}, {0xba}, {0xff}};
+    std::vector<unsigned char> sc; size_t nf = r.below(5); for (size_t k = 0; k < nf; k++) { const auto& f = FRAG[r.below(FRAG.size())]; sc.insert(sc.end(), f.begin(), f.end()); }
+    static const size_t NS[] = {0, 1, 2, 3, 999, 1000, 1001, 1002}; static const size_t ES[] = {0, 1, 2, 519, 520, 521, 522, 600};
+    size_t ns = NS[r.below(r.below(4) ? 4 : 8)]; std::vector<std::vector<unsigned char>> st(ns); bool big = false; for (auto& e : st) { if (r.below(ns > 10 ? 700 : 3) == 0) e.assign(ES[r.below(8)], 1); else e.assign(r.below(2), 1); if (e.size() > 520) big = true; }
+    bool discourage = r.below(2);
+    CScript leaf(sc.begin(), sc.end()); uint256 lh = ComputeTapleafHash(0xc0, leaf); XOnlyPubKey ik{std::span<const unsigned char>(GX, 32)}; auto tw = ik.CreateTapTweak(&lh); if (!tw) return;
+    CScript spk; spk << OP_1 << std::vector<unsigned char>(tw->first.begin(), tw->first.end());
+    CScriptWitness wit; wit.stack = st; wit.stack.push_back(sc); std::vector<unsigned char> ctrl{(unsigned char)(0xc0 | (tw->second ? 1 : 0))}; ctrl.insert(ctrl.end(), GX, GX + 32); wit.stack.push_back(ctrl);
+    script_verify_flags fl = SCRIPT_VERIFY_P2SH | SCRIPT_VERIFY_WITNESS | SCRIPT_VERIFY_TAPROOT; if (discourage) fl |= SCRIPT_VERIFY_DISCOURAGE_OP_SUCCESS;
+    ScriptError err = SCRIPT_ERR_UNKNOWN_ERROR; BaseSignatureChecker chk; bool ok = VerifyScript(CScript(), spk, &wit, fl, chk, &err); rv::g_stats.inputs++;
+    int ps = ref_prescan(sc); bool decided = true; bool wok = false; ScriptError werr = SCRIPT_ERR_OK;
+    if (ps == 1) { wok = !discourage; werr = discourage ? SCRIPT_ERR_DISCOURAGE_OP_SUCCESS : SCRIPT_ERR_OK; } else if (ps == 2) werr = SCRIPT_ERR_BAD_OPCODE; else if (ns > 1000) werr = SCRIPT_ERR_STACK_SIZE; else if (big) werr = SCRIPT_ERR_PUSH_SIZE; else decided = false;
+    if (decided && (ok != wok || err != werr)) BAD("tapscript %s with %zu stack elements (%s over 520 bytes), DISCOURAGE_OP_SUCCESS=%d: VerifyScript = %d / %s, BIP342 order (OP_SUCCESSx scan, then stack limit 1000, then element limit 520) says %d / %s", hx(sc).c_str(), ns, big ? "one" : "none", discourage, ok, ScriptErrorString(err).c_str(), wok, ScriptErrorString(werr).c_str());
+    if (!decided && (err == SCRIPT_ERR_DISCOURAGE_OP_SUCCESS || err == SCRIPT_ERR_STACK_SIZE && ns + 8 <= 1000)) BAD("tapscript %s with %zu small elements and no OP_SUCCESSx: %s", hx(sc).c_str(), ns, ScriptErrorString(err).c_str());
+    if (!decided && sc == std::vector<unsigned char>{0x51} && (ok != (ns == 0))) BAD("tapscript OP_1 with %zu elements: VerifyScript = %d (CLEANSTACK is consensus in witness scripts)", ns, ok);
+    if (!decided && sc == std::vector<unsigned char>{0x00} && ns == 0 && (ok || err != SCRIPT_ERR_EVAL_FALSE)) BAD("tapscript OP_0: %d / %s, expected EVAL_FALSE", ok, ScriptErrorString(err).c_str());
+}
 int main(int argc, char** argv)
 {
     auto a = rv::parse(argc, argv); rv::Rng r(a.seed); uint64_t n = a.diff ? a.n : 200000; static const std::vector<int64_t> E = {0, 1, -1, 127, 128, -127, -128, 255, 256, 32767, 32768, 0x7fffff, 0x800000, 2147483647LL, 2147483648LL, -2147483647LL, -2147483648LL, 0x7fffffffffLL, INT64_MAX, INT64_MIN};
@@ -39,6 +67,7 @@ int main(int argc, char** argv)
         int so = (int)r.below(256); bool ios = IsOpSuccess((opcodetype)so); bool wios = so == 80 || so == 98 || (so >= 126 && so <= 129) || (so >= 131 && so <= 134) || (so >= 137 && so <= 138) || (so >= 141 && so <= 142) || (so >= 149 && so <= 153) || (so >= 187 && so <= 254);
         if (ios != xc_IsOpSuccess(so)) DIS("IsOpSuccess(%d)", so); if (ios != wios) BAD("IsOpSuccess(%d) = %d, BIP342 says %d", so, ios, wios);
     }
+    for (uint64_t i = 0; i < n / 10 + 2000; i++) test_tapscript(r);
     rv::report();
     return rv::g_stats.real_violations ? 1 : (rv::g_stats.disagreements ? 3 : 0);
 }
